@@ -6,7 +6,7 @@
 //!   B <tree>                      a base signal (owned for the whole case, no `ref` inside)
 //!   N <k> <tree>                  build, k x (is_exhausted, next, is_exhausted), drop
 //!   U <cap> <extra> <tree>        tree.until_exhausted(): at most cap calls, `extra` calls after the first None
-//!   T <n> <cap> <extra> <tree>    tree.take(n)
+//!   T <n> <cap> <extra> <tree>    tree.take(n); before every call of next: 17 size_hint().0 size_hint().1 (-1 = None) len()
 //!   I <cap> <extra> <tree>        tree.into_interleaved_samples().into_iter()
 //!   L <id> <nframes> v.. <cap> <extra> <tree>   signal::lift(frames, |arg| tree)
 //!   NC <j> <k> <tree>             j x next, clone the whole stack, k x next on the original, k x next on the clone
@@ -18,12 +18,23 @@
 //!   | map <id> <fn> <k> T | zip <id> <fn> A B | add A B | mul A B | scale <amp> T | offset <off> T
 //!   | scalepc a.. T | offsetpc a.. T | clip <t> T | inspect <id> T | delay <k> T | ref <i> | arg
 //! `ref i` = bases[i].by_ref(): the adaptor borrows the base and hands it back when dropped.
+//!   | st <n> <spec outer> [<spec mid>] <spec inner> T <second sources, inner to outer>
+//!       STATICALLY TYPED nesting (formats i16x2 u8x3 i32x1 f64x1 f32x2 i24x1 u48x1): the n = 2 (or 3) adaptors are
+//!       applied as ONE method chain `T.inner(p1).outer(p2)` on concrete types (OffsetAmp<Dyn>, Delay<ScaleAmp<Dyn>>, ..),
+//!       no box between the levels, so the receiver of the outer call has the adaptor's own static type: an inherent
+//!       method shadowing the trait method, or an impl specialised to one adaptor type, is what gets called.
+//!       spec: offset <v> | scale <v> | offsetpc v.. | scalepc v.. | clip <t> | delay <k> | inspect <id>
+//!             | map <id> <fn> <k> | add | mul | zip <id> <fn>      (add / mul / zip: the second source follows T)
+//!       n = 3: inner and mid are both offset or both scale.  n = 1: T is an eq / gen / genmut leaf, built with its own
+//!       static type (signal::Equilibrium, Gen, GenMut) as the receiver.  Means the same as the ordinary nested tree.
 //!
 //! Output: observations joined by ';':
 //!   10 events            construction (look-ahead fills of the iterator backed leaves)
 //!   11 e0 e1 frame events  one Signal::next (is_exhausted before / after)
 //!   13 frame events      iterator item Some(frame);   15 sample events   Some(sample);   14 events  None
 //!   16 (id pulls ipulls)*  counters of the leaves under the op's tree, left to right
+//!   17 lo hi len         Take: size_hint and ExactSizeIterator::len before a call of next
+//! counts (delay k, take n, nth / skip k) are parsed as i128 and cast `as usize`: every usize value travels as itself
 //!   8 code               panic
 //! events: 1 id = Iterator::next on the iterator behind leaf id; 2 id = Signal::next on leaf id /
 //!   gen closure id; 3 id = map/zip_map closure id; 4 id frame = inspect closure id saw frame
@@ -349,6 +360,96 @@ fn run_iter<I: Iterator + Clone>(
     }
 }
 
+/// outer level of a statically typed chain: `$r` is the (concretely typed) receiver expression
+macro_rules! st_outer {
+    ($r:expr, $o:expr) => {
+        match $o {
+            Lv::Offset(b) => dy($r.offset_amp(b)),
+            Lv::Scale(b) => dy($r.scale_amp(b)),
+            Lv::OffsetPc(b) => dy($r.offset_amp_per_channel(b)),
+            Lv::ScalePc(b) => dy($r.scale_amp_per_channel(b)),
+            Lv::Clip(b) => dy($r.clip_amp(b)),
+            Lv::Delay(k) => dy($r.delay(k)),
+            Lv::Inspect(id) => dy($r.inspect(move |f: &Fr| {
+                log(&[4, id]);
+                log(&f.un());
+            })),
+            Lv::Map0(id) => dy($r.map(move |x: Fr| {
+                log(&[3, id]);
+                rev_frame(x)
+            })),
+            Lv::Map1(id, k) => dy($r.map(move |x: Fr| {
+                log(&[3, id]);
+                let y: Fr = Frame::map(x, |c| c.wadd(k));
+                y
+            })),
+            Lv::Add(b) => dy($r.add_amp(b)),
+            Lv::Mul(b) => dy($r.mul_amp(b)),
+            Lv::Zip0(id, b) => dy($r.zip_map(b, move |x: Fr, y: Fr| {
+                log(&[3, id]);
+                let z: Fr = Frame::zip_map(x, y, |p, q| p.wsub(q));
+                z
+            })),
+            Lv::Zip1(id, b) => dy($r.zip_map(b, move |x: Fr, y: Fr| {
+                log(&[3, id]);
+                select_frame(x, y)
+            })),
+        }
+    };
+}
+/// inner level applied to `$s`, then every outer level on the resulting concrete type
+macro_rules! st_inner {
+    ($s:expr, $i:expr, $o:expr) => {
+        match $i {
+            Lv::Offset(a) => st_outer!($s.offset_amp(a), $o),
+            Lv::Scale(a) => st_outer!($s.scale_amp(a), $o),
+            Lv::OffsetPc(a) => st_outer!($s.offset_amp_per_channel(a), $o),
+            Lv::ScalePc(a) => st_outer!($s.scale_amp_per_channel(a), $o),
+            Lv::Clip(a) => st_outer!($s.clip_amp(a), $o),
+            Lv::Delay(j) => st_outer!($s.delay(j), $o),
+            Lv::Inspect(ia) => st_outer!(
+                $s.inspect(move |f: &Fr| {
+                    log(&[4, ia]);
+                    log(&f.un());
+                }),
+                $o
+            ),
+            Lv::Map0(ia) => st_outer!(
+                $s.map(move |x: Fr| {
+                    log(&[3, ia]);
+                    rev_frame(x)
+                }),
+                $o
+            ),
+            Lv::Map1(ia, ka) => st_outer!(
+                $s.map(move |x: Fr| {
+                    log(&[3, ia]);
+                    let y: Fr = Frame::map(x, |c| c.wadd(ka));
+                    y
+                }),
+                $o
+            ),
+            Lv::Add(a) => st_outer!($s.add_amp(a), $o),
+            Lv::Mul(a) => st_outer!($s.mul_amp(a), $o),
+            Lv::Zip0(ia, a) => st_outer!(
+                $s.zip_map(a, move |x: Fr, y: Fr| {
+                    log(&[3, ia]);
+                    let z: Fr = Frame::zip_map(x, y, |p, q| p.wsub(q));
+                    z
+                }),
+                $o
+            ),
+            Lv::Zip1(ia, a) => st_outer!(
+                $s.zip_map(a, move |x: Fr, y: Fr| {
+                    log(&[3, ia]);
+                    select_frame(x, y)
+                }),
+                $o
+            ),
+        }
+    };
+}
+
 struct Toks<'t> {
     t: Vec<&'t str>,
     p: usize,
@@ -368,7 +469,7 @@ impl<'t> Toks<'t> {
 }
 
 macro_rules! fmt_mod {
-    ($m:ident, $Fr:ty, $S:ty, $SgS:ty, $SgFr:ty, $FlS:ty, $FlFr:ty, $sg:tt, $fl:tt) => {
+    ($m:ident, $Fr:ty, $S:ty, $SgS:ty, $SgFr:ty, $FlS:ty, $FlFr:ty, $sg:tt, $fl:tt, $st:tt) => {
         mod $m {
             use super::*;
             type Fr = $Fr;
@@ -384,6 +485,7 @@ macro_rules! fmt_mod {
 
             fmt_mod!(@signed $sg);
             fmt_mod!(@float $fl);
+            fmt_mod!(@st $st, $S, $SgS, $SgFr, $FlS, $FlFr);
 
             pub fn parse<'t, 'a>(cx: &mut Cx<'t, 'a>) -> Dyn<'a, Fr> {
                 let w = cx.tk.word();
@@ -522,6 +624,7 @@ macro_rules! fmt_mod {
                         dy(RefSig(b))
                     }
                     "arg" => cx.arg.take().expect("arg outside lift"),
+                    "st" => parse_st(cx),
                     other => panic!("unknown node {}", other),
                 }
             }
@@ -597,9 +700,10 @@ macro_rules! fmt_mod {
                             out.push(line(10, &[&drain()]));
                             let mut it = s.take(n);
                             for _ in 0..cap {
-                                // ExactSizeIterator::len / size_hint must agree with what is left
+                                // size_hint / ExactSizeIterator::len: what is left of n (observed, so that take(2^32),
+                                // take(usize::MAX) .. are judged on the count itself and not only on the first items)
                                 let (lo, hi) = it.size_hint();
-                                assert!(Some(lo) == hi && lo == it.len());
+                                out.push(line(17, &[&[lo as i128, hi.map_or(-1, |h| h as i128), it.len() as i128]]));
                                 match it.next() {
                                     Some(f) => out.push(line(13, &[&f.un(), &drain()])),
                                     None => {
@@ -733,6 +837,155 @@ macro_rules! fmt_mod {
             }
         }
     };
+    (@st no, $S:ty, $SgS:ty, $SgFr:ty, $FlS:ty, $FlFr:ty) => {
+        fn parse_st<'t, 'a>(_cx: &mut Cx<'t, 'a>) -> Dyn<'a, Fr> {
+            panic!("statically typed nesting is not instantiated for this format")
+        }
+    };
+    (@st yes, $S:ty, $SgS:ty, $SgFr:ty, $FlS:ty, $FlFr:ty) => {
+        /// one level of a statically typed chain, its parameters read but its second source not yet parsed
+        enum Spec {
+            Offset($SgS),
+            Scale($FlS),
+            OffsetPc($SgFr),
+            ScalePc($FlFr),
+            Clip($SgS),
+            Delay(usize),
+            Inspect(i128),
+            Map(i128, i128, i128),
+            Add,
+            Mul,
+            Zip(i128, i128),
+        }
+        enum Lv<'a> {
+            Offset($SgS),
+            Scale($FlS),
+            OffsetPc($SgFr),
+            ScalePc($FlFr),
+            Clip($SgS),
+            Delay(usize),
+            Inspect(i128),
+            Map0(i128),
+            Map1(i128, i128),
+            Add(Dyn<'a, <Fr as Frame>::Signed>),
+            Mul(Dyn<'a, <Fr as Frame>::Float>),
+            Zip0(i128, Dyn<'a, Fr>),
+            Zip1(i128, Dyn<'a, Fr>),
+        }
+        fn read_spec<'t, 'a>(cx: &mut Cx<'t, 'a>) -> Spec {
+            match cx.tk.word() {
+                "offset" => Spec::Offset(<$SgS as Sm>::of(cx.tk.int())),
+                "scale" => Spec::Scale(<$FlS as Sm>::of(cx.tk.int())),
+                "offsetpc" => Spec::OffsetPc(<$SgFr as Fx>::mk(&cx.tk.ints(N))),
+                "scalepc" => Spec::ScalePc(<$FlFr as Fx>::mk(&cx.tk.ints(N))),
+                "clip" => Spec::Clip(<$SgS as Sm>::of(cx.tk.int())),
+                "delay" => Spec::Delay(cx.tk.int() as usize),
+                "inspect" => Spec::Inspect(cx.tk.int()),
+                "map" => {
+                    let v = cx.tk.ints(3);
+                    Spec::Map(v[0], v[1], v[2])
+                }
+                "add" => Spec::Add,
+                "mul" => Spec::Mul,
+                "zip" => {
+                    let v = cx.tk.ints(2);
+                    Spec::Zip(v[0], v[1])
+                }
+                other => panic!("unknown level {}", other),
+            }
+        }
+        /// parses the level's second source (if it has one) at the current position
+        fn fill<'t, 'a>(cx: &mut Cx<'t, 'a>, sp: Spec) -> Lv<'a> {
+            match sp {
+                Spec::Offset(a) => Lv::Offset(a),
+                Spec::Scale(a) => Lv::Scale(a),
+                Spec::OffsetPc(a) => Lv::OffsetPc(a),
+                Spec::ScalePc(a) => Lv::ScalePc(a),
+                Spec::Clip(a) => Lv::Clip(a),
+                Spec::Delay(k) => Lv::Delay(k),
+                Spec::Inspect(id) => Lv::Inspect(id),
+                Spec::Map(id, 0, _) => Lv::Map0(id),
+                Spec::Map(id, 1, k) => Lv::Map1(id, k),
+                Spec::Map(..) => panic!("unknown map fn"),
+                Spec::Add => Lv::Add(parse_signed(cx)),
+                Spec::Mul => Lv::Mul(parse_float(cx)),
+                Spec::Zip(id, 0) => Lv::Zip0(id, parse(cx)),
+                Spec::Zip(id, _) => Lv::Zip1(id, parse(cx)),
+            }
+        }
+        fn parse_st<'t, 'a>(cx: &mut Cx<'t, 'a>) -> Dyn<'a, Fr> {
+            let n = cx.tk.int() as usize;
+            let mut specs: Vec<Spec> = (0..n).map(|_| read_spec(cx)).collect(); // outermost first
+            if n == 1 {
+                // ONE level applied to a statically typed LEAF of the crate (Equilibrium, Gen, GenMut): the receiver
+                // of the adaptor call is the crate's own source type, not a box
+                let sp = specs.pop().expect("level");
+                return match cx.tk.word() {
+                    "eq" => {
+                        let o = fill(cx, sp);
+                        st_outer!(signal::equilibrium::<Fr>(), o)
+                    }
+                    "gen" => {
+                        let id = cx.tk.int();
+                        let c = Fr::mk(&cx.tk.ints(N));
+                        let h = leaf(id);
+                        cx.handles.push(h.share());
+                        let o = fill(cx, sp);
+                        st_outer!(
+                            signal::gen(move || {
+                                h.pulls.set(h.pulls.get() + 1);
+                                log(&[2, id]);
+                                c
+                            }),
+                            o
+                        )
+                    }
+                    "genmut" => {
+                        let id = cx.tk.int();
+                        let base = cx.tk.int();
+                        let h = leaf(id);
+                        cx.handles.push(h.share());
+                        let mut k: i128 = 0;
+                        let o = fill(cx, sp);
+                        st_outer!(
+                            signal::gen_mut(move || {
+                                h.pulls.set(h.pulls.get() + 1);
+                                log(&[2, id]);
+                                let v = base + k % 7;
+                                k += 1;
+                                Fr::mk(&vec![<$S as Sm>::gm(v).to(); N])
+                            }),
+                            o
+                        )
+                    }
+                    other => panic!("st 1 takes an eq / gen / genmut leaf, not {}", other),
+                };
+            }
+            let s = parse(cx);
+            let mut lvs: Vec<Lv<'a>> = Vec::new(); // innermost first: second sources are parsed left to right
+            for sp in specs.into_iter().rev() {
+                let l = fill(cx, sp);
+                lvs.push(l);
+            }
+            let o = lvs.pop().expect("outer level");
+            match n {
+                2 => {
+                    let i = lvs.pop().expect("inner level");
+                    st_inner!(s, i, o)
+                }
+                3 => {
+                    let m = lvs.pop().expect("mid level");
+                    let i = lvs.pop().expect("inner level");
+                    match (i, m) {
+                        (Lv::Offset(a), Lv::Offset(b)) => st_outer!(s.offset_amp(a).offset_amp(b), o),
+                        (Lv::Scale(a), Lv::Scale(b)) => st_outer!(s.scale_amp(a).scale_amp(b), o),
+                        _ => panic!("a statically typed triple has offset/offset or scale/scale below its outer level"),
+                    }
+                }
+                _ => panic!("st takes 1, 2 or 3 levels"),
+            }
+        }
+    };
     (@signed same) => {
         fn parse_signed<'t, 'a>(cx: &mut Cx<'t, 'a>) -> Dyn<'a, Fr> {
             parse(cx)
@@ -784,26 +1037,26 @@ fn is_leaf_word(w: &str) -> bool {
     matches!(w, "iter" | "samp" | "gen" | "genmut")
 }
 
-fmt_mod!(i16x2, [i16; 2], i16, i16, [i16; 2], f32, [f32; 2], same, none);
-fmt_mod!(u8x3, [u8; 3], u8, i8, [i8; 3], f32, [f32; 3], conv, none);
-fmt_mod!(i32x1, i32, i32, i32, i32, f32, f32, same, none);
-fmt_mod!(f64x1, f64, f64, f64, f64, f64, f64, same, same);
-fmt_mod!(f32x2, [f32; 2], f32, f32, [f32; 2], f32, [f32; 2], same, same);
+fmt_mod!(i16x2, [i16; 2], i16, i16, [i16; 2], f32, [f32; 2], same, none, yes);
+fmt_mod!(u8x3, [u8; 3], u8, i8, [i8; 3], f32, [f32; 3], conv, none, yes);
+fmt_mod!(i32x1, i32, i32, i32, i32, f32, f32, same, none, yes);
+fmt_mod!(f64x1, f64, f64, f64, f64, f64, f64, same, same, yes);
+fmt_mod!(f32x2, [f32; 2], f32, f32, [f32; 2], f32, [f32; 2], same, same, yes);
 // every other sample format (Signed / Float companions per impl_sample!)
-fmt_mod!(i24x1, I24, I24, I24, I24, f32, f32, same, conv);
-fmt_mod!(i24x2, [I24; 2], I24, I24, [I24; 2], f32, [f32; 2], same, conv);
-fmt_mod!(u24x1, U24, U24, i32, i32, f32, f32, conv, conv);
-fmt_mod!(u24x3, [U24; 3], U24, i32, [i32; 3], f32, [f32; 3], conv, conv);
-fmt_mod!(i48x1, I48, I48, I48, I48, f64, f64, same, conv);
-fmt_mod!(i48x2, [I48; 2], I48, I48, [I48; 2], f64, [f64; 2], same, conv);
-fmt_mod!(u48x1, U48, U48, i64, i64, f64, f64, conv, conv);
-fmt_mod!(u48x2, [U48; 2], U48, i64, [i64; 2], f64, [f64; 2], conv, conv);
-fmt_mod!(i8x2, [i8; 2], i8, i8, [i8; 2], f32, [f32; 2], same, conv);
-fmt_mod!(u16x1, u16, u16, i16, i16, f32, f32, conv, conv);
-fmt_mod!(u32x2, [u32; 2], u32, i32, [i32; 2], f32, [f32; 2], conv, conv);
-fmt_mod!(i64x1, i64, i64, i64, i64, f64, f64, same, conv);
-fmt_mod!(u64x1, u64, u64, i64, i64, f64, f64, conv, conv);
-fmt_mod!(u64x2, [u64; 2], u64, i64, [i64; 2], f64, [f64; 2], conv, conv);
+fmt_mod!(i24x1, I24, I24, I24, I24, f32, f32, same, conv, yes);
+fmt_mod!(i24x2, [I24; 2], I24, I24, [I24; 2], f32, [f32; 2], same, conv, no);
+fmt_mod!(u24x1, U24, U24, i32, i32, f32, f32, conv, conv, no);
+fmt_mod!(u24x3, [U24; 3], U24, i32, [i32; 3], f32, [f32; 3], conv, conv, no);
+fmt_mod!(i48x1, I48, I48, I48, I48, f64, f64, same, conv, no);
+fmt_mod!(i48x2, [I48; 2], I48, I48, [I48; 2], f64, [f64; 2], same, conv, no);
+fmt_mod!(u48x1, U48, U48, i64, i64, f64, f64, conv, conv, yes);
+fmt_mod!(u48x2, [U48; 2], U48, i64, [i64; 2], f64, [f64; 2], conv, conv, no);
+fmt_mod!(i8x2, [i8; 2], i8, i8, [i8; 2], f32, [f32; 2], same, conv, no);
+fmt_mod!(u16x1, u16, u16, i16, i16, f32, f32, conv, conv, no);
+fmt_mod!(u32x2, [u32; 2], u32, i32, [i32; 2], f32, [f32; 2], conv, conv, no);
+fmt_mod!(i64x1, i64, i64, i64, i64, f64, f64, same, conv, no);
+fmt_mod!(u64x1, u64, u64, i64, i64, f64, f64, conv, conv, no);
+fmt_mod!(u64x2, [u64; 2], u64, i64, [i64; 2], f64, [f64; 2], conv, conv, no);
 
 fn main() {
     serve(|l| {
